@@ -310,13 +310,24 @@ IntOp(op, x, y) ==
                         IF a < 0 \/ b < 0 THEN RU                               \* two's complement: not modelled
                         ELSE RV(IntV(IF op = "bitor" THEN a | b ELSE IF op = "bitand" THEN a & b ELSE a ^^ b))
 
-Apply2(op, x, y) ==
+\* Order on the STORED (packed) encodings, used by the query engine's optimized comparison:
+\* the empty string packs to the empty byte string and therefore sorts before everything,
+\* also before booleans and numbers (in the value order it comes after them).  This is the
+\* documented exception of property C25; everything else is ordered as by Cmp.
+IsEmptyStr(v) == v.t = "str" /\ v.c = <<>>
+CmpRaw(a, b) ==
+    IF IsEmptyStr(a) THEN (IF IsEmptyStr(b) THEN 0 ELSE -1)
+    ELSE IF IsEmptyStr(b) THEN 1
+    ELSE Cmp(a, b)
+
+\* raw = TRUE: this comparison is done on the stored encodings (named relaxation, C25 only)
+Apply2(op, x, y, raw) ==
     CASE op = "is"   -> BoolV(Eq(x, y))
       [] op = "isnt" -> BoolV(~Eq(x, y))
-      [] op = "lt"   -> BoolV(Cmp(x, y) < 0)
-      [] op = "lte"  -> BoolV(Cmp(x, y) <= 0)
-      [] op = "gt"   -> BoolV(Cmp(x, y) > 0)
-      [] op = "gte"  -> BoolV(Cmp(x, y) >= 0)
+      [] op = "lt"   -> BoolV((IF raw THEN CmpRaw(x, y) ELSE Cmp(x, y)) < 0)
+      [] op = "lte"  -> BoolV((IF raw THEN CmpRaw(x, y) ELSE Cmp(x, y)) <= 0)
+      [] op = "gt"   -> BoolV((IF raw THEN CmpRaw(x, y) ELSE Cmp(x, y)) > 0)
+      [] op = "gte"  -> BoolV((IF raw THEN CmpRaw(x, y) ELSE Cmp(x, y)) >= 0)
       [] op \in {"add", "sub", "mul", "div"} ->
             LET a == ToNumR(x)
                 b == ToNumR(y)
@@ -332,41 +343,58 @@ Apply2(op, x, y) ==
             IN IF s1.k # "v" THEN s1 ELSE IF s2.k # "v" THEN s2 ELSE RV(Str(s1.v.c \o s2.v.c))
       [] op \in {"match", "nomatch"} -> RU
 
-RECURSIVE Eval(_, _), EvalIn(_, _, _, _)
-Eval(e, env) ==
+\* EvalP(e, env, p, R): p is the path of e in the whole expression (sequence of operand
+\* positions), R the set of paths of comparison nodes that are evaluated on stored
+\* encodings (empty for the language semantics).
+RECURSIVE EvalP(_, _, _, _), EvalInP(_, _, _, _, _, _)
+EvalP(e, env, p, R) ==
     IF e.op = "x" THEN RV(env[e.i])
     ELSE IF e.op \in {"and", "or"} THEN
         \* left to right; the right operand is evaluated only if the left one does not decide;
         \* every evaluated operand must be a boolean
-        LET l == Eval(e.a[1], env)
+        LET l == EvalP(e.a[1], env, Append(p, 1), R)
         IN IF l.k # "v" THEN l
            ELSE IF l.v.t # "bool" THEN TypeErr
            ELSE IF l.v.b = (e.op = "or") THEN l
-           ELSE LET r == Eval(e.a[2], env)
+           ELSE LET r == EvalP(e.a[2], env, Append(p, 2), R)
                 IN IF r.k # "v" THEN r ELSE IF r.v.t # "bool" THEN TypeErr ELSE r
     ELSE IF e.op = "if" THEN
-        LET c == Eval(e.a[1], env)
+        LET c == EvalP(e.a[1], env, Append(p, 1), R)
         IN IF c.k # "v" THEN c
            ELSE IF c.v.t # "bool" THEN TypeErr
-           ELSE IF c.v.b THEN Eval(e.a[2], env) ELSE Eval(e.a[3], env)
+           ELSE IF c.v.b THEN EvalP(e.a[2], env, Append(p, 2), R) ELSE EvalP(e.a[3], env, Append(p, 3), R)
     ELSE IF e.op = "in" THEN
-        LET x == Eval(e.a[1], env)
-        IN IF x.k # "v" THEN x ELSE EvalIn(x.v, e.a, 2, env)
+        LET x == EvalP(e.a[1], env, Append(p, 1), R)
+        IN IF x.k # "v" THEN x ELSE EvalInP(x.v, e.a, 2, env, p, R)
     ELSE IF Len(e.a) = 1 THEN
-        LET x == Eval(e.a[1], env)
+        LET x == EvalP(e.a[1], env, Append(p, 1), R)
         IN IF x.k # "v" THEN x ELSE Apply1(e.op, x.v)
     ELSE
-        LET x == Eval(e.a[1], env)
+        LET x == EvalP(e.a[1], env, Append(p, 1), R)
         IN IF x.k # "v" THEN x
-           ELSE LET y == Eval(e.a[2], env)
-                IN IF y.k # "v" THEN y ELSE Apply2(e.op, x.v, y.v)
+           ELSE LET y == EvalP(e.a[2], env, Append(p, 2), R)
+                IN IF y.k # "v" THEN y ELSE Apply2(e.op, x.v, y.v, p \in R)
 \* x in (a[i], a[i+1], ...): members are evaluated in order until one is equal
-EvalIn(x, a, i, env) ==
+EvalInP(x, a, i, env, p, R) ==
     IF i > Len(a) THEN BoolV(FALSE)
-    ELSE LET y == Eval(a[i], env)
+    ELSE LET y == EvalP(a[i], env, Append(p, i), R)
          IN IF y.k # "v" THEN y
             ELSE IF Eq(x, y.v) THEN BoolV(TRUE)
-            ELSE EvalIn(x, a, i + 1, env)
+            ELSE EvalInP(x, a, i + 1, env, p, R)
+
+\* the language semantics
+Eval(e, env) == EvalP(e, env, <<>>, {})
+
+\* Query engine: each order comparison may be evaluated on values or on stored encodings
+\* (which one depends on the strategy chosen: index range, raw filter, value filter), so
+\* the engine may produce any of these results; they differ only where an empty string
+\* meets a boolean or a number (the documented exception).
+RECURSIVE OrderNodes(_, _)
+OrderNodes(e, p) ==
+    IF e.op = "x" THEN {}
+    ELSE (IF e.op \in {"lt", "lte", "gt", "gte"} THEN {p} ELSE {})
+         \cup UNION {OrderNodes(e.a[i], Append(p, i)) : i \in 1..Len(e.a)}
+EvalSet(e, env) == {EvalP(e, env, <<>>, R) : R \in SUBSET OrderNodes(e, <<>>)}
 
 ---------------------------------------------------------------------------
 (* Which operands are read, as a sequence of operand indexes in left-to-right *)
